@@ -11,6 +11,7 @@ import contracts.gulp as GU
 import contracts.setfl as SF
 import contracts.tabeam as TB
 import contracts.eam_tabulation as ET
+import contracts.actions as ACT
 
 # every function on a path from a tabulation's write() to an evaluation of a user callable: each carries an exceptional
 # postcondition "the caller's document is unchanged" (writers that stream into a buffer handed to them say so: on_raise = []
@@ -23,7 +24,8 @@ FUNCTIONS = [(LT.FILE, '_writeSinglePotential'), (LT.FILE, 'writePotentials'), (
              (TB.FILE, '_tabulateFunction'), (TB.FILE, '_writeEmbeddingFunction'), (TB.FILE, '_writeDensityFunction'), (TB.FILE, '_writePairPotential'),
              (TB.FILE, '_writePairPotentials'), (TB.FILE, '_writeTABEAM_exceptDensity'), (TB.FILE, 'writeTABEAM'), (TB.FILE, 'writeTABEAMFinnisSinclair'),
              (ET.FILE, 'SetFL_EAMTabulation.write'), (ET.FILE, 'SetFL_FS_EAMTabulation.write'), (ET.FILE, 'TABEAM_EAMTabulation.write'),
-             (ET.FILE, 'TABEAM_FinnisSinclair_EAMTabulation.write'), (ET.FILE, 'ADP_EAMTabulation.write')]
+             (ET.FILE, 'TABEAM_FinnisSinclair_EAMTabulation.write'), (ET.FILE, 'ADP_EAMTabulation.write'),
+             (ACT.FILE, 'action_tabulate')]      # potable: the named file holds the whole table, or (on any failure) is empty or was never opened
 
 def lemmas():
     """every public write() has the exceptional postcondition fp == old(fp): collected from the registry so that a contract
@@ -40,6 +42,7 @@ def lemmas():
     return out
 
 MUTANTS = [
+    (ACT.FILE, 'action_tabulate', "tabulation.write(outfile)", "outfile.write('# potable\\n')\n        tabulation.write(outfile)", 'on-raise'),
     (LT.FILE, '_writeSinglePotential', "'force': force}, file=sbuild)", "'force': force}, file=out)", 'on-raise'),
     (PT.FILE, 'GULP_PairTabulation.write', "self._write_pot(pot, sbuild)", "self._write_pot(pot, fp)", 'on-raise'),
     (ET.FILE, 'ADP_EAMTabulation.write', "self._write_dipole(sbuild)", "self._write_dipole(fp)", 'on-raise'),
@@ -49,7 +52,7 @@ MUTANTS = [
 ]
 ASSUMPTIONS = ['every evaluation of a user callable (energy, force, embedding, density, dipole, quadrupole) may raise: raises(f, r) is unconstrained',
                'A4: StringIO.write / getvalue; open(name, "w") creates or truncates the file before write() is called (so the file is empty or absent when write() raised without writing)',
-               'potable: action_tabulate opens the file and calls write(): 3 statements, inlined from the AST in the oracle route only']
+               'potable: action_tabulate (contracts/actions.py) is verified against ONE assumed contract for the write() of whatever tabulation object the configuration layer returns: whole table or nothing -- which is what the contracts of the eight text writers say and prove; for the Excel writers it is the bounded oracle that stands behind that assumption']
 BOUNDED = [dict(name='Excel targets (workbook assembled in memory, written once through a temporary file) and action_tabulate', bound='every target, failure positions {1, 2, n/3, n/2, n-1, n} of all n evaluations', technique='concrete oracle with a callable failing at its k-th evaluation')]
 
 def oracle_payload(tier, seed, mode='search'): return dict(mode=mode, seed=seed, n=10 if tier == 'quick' else 300)
